@@ -200,6 +200,38 @@ pub fn range_adversaries(h: &Honest, w: usize, v: &BlsScalar, rng: &mut impl Rng
             out.push((format!("chain-shifted-from:{j}"), f));
         }
     }
+    // the strongest single-link adversary: shift the chain from position j by
+    // the amount that makes the *last* accumulator equal the checked value, so
+    // that every row holds except the one link into position j
+    if quads >= 1 {
+        let target = if odd { h.snap.witnesses[own[0]] } else { *v };
+        let last = h.snap.witnesses[acc_at(quads - 1)];
+        let mut js = vec![0usize];
+        if quads >= 2 {
+            js.push(1);
+            js.push(rng.next_u32() as usize % quads);
+        }
+        js.sort();
+        js.dedup();
+        for j in js {
+            // delta * 4^(quads-1-j) = target - last
+            let mut p = BlsScalar::one();
+            for _ in 0..(quads - 1 - j) {
+                p *= BlsScalar::from(4u64);
+            }
+            let delta = (target - last) * p.invert().unwrap();
+            if delta == BlsScalar::zero() {
+                continue;
+            }
+            let mut f = Forge::new();
+            let mut d = delta;
+            for k in j..quads {
+                f.insert(acc_at(k), h.snap.witnesses[acc_at(k)] + d);
+                d *= BlsScalar::from(4u64);
+            }
+            out.push((format!("chain-solved-from:{j}"), f));
+        }
+    }
     if odd {
         // top bit 2 with a compensating lower part; top bit flipped with lower adjusted
         let half = pow2(w as u32 - 1);
